@@ -24,16 +24,18 @@ CLAIMS = {
     "C05": c("vh", "runtime monitoring: all-pairs cross-loading with a three-valued layout-relation oracle",
              "All ordered pairs of ~340 subjects (115k loads) with must-accept / must-reject / no-verdict classification computed from the harness' own shapes, plus header corruption with reader-position monitor.", "DESIGN.md §5 C05"),
     "C06": c("vh", "runtime monitoring: structure-aware mutation fuzzing in isolated, address-space-limited child processes with a lengths-first / bit-pattern value inspector",
-             "Mutants target every length, tag, discriminant, bool, char and special payload of valid encodings, plus schema sections and random bytes; outcomes are classified per input, process deaths and hangs are "
-             "attributed to the journalled input. Release build (the only one in which size arithmetic wraps) and debug build.", "DESIGN.md §5 C06"),
+             "Mutants target every length, tag, discriminant, bool, char and special payload of valid encodings, plus schema sections and random bytes; outcomes are classified per input, process deaths and "
+             "non-termination (child CPU time) are attributed to the journalled input. Release build (the only one in which size arithmetic wraps), Miri; thorough adds debug and AddressSanitizer.", "DESIGN.md §5 C06"),
     "C07": c("vh", "runtime monitoring: exhaustive crash-point (truncation) enumeration",
              "Every cut offset of every saved file up to 6000 bytes in five containers, plus frame-boundary neighbourhoods of multi-chunk encrypted streams.", "DESIGN.md §5 C07"),
     "C08": c("vh", "runtime monitoring: exhaustive fault-offset enumeration with instrumented Read/Write and an independent AES-GCM stream decryptor",
              "Writer and reader fail at every offset with four error kinds; short-write / Interrupted schedules; accepted bytes checked to be a prefix (plaintext prefix for encrypted streams).", "DESIGN.md §5 C08"),
     "C09": c("va", "runtime monitoring: same scripted history against direct calls (sequential model) and through the ABI; creation/drop event log checked offline",
-             "60 (quick) / 1500 (thorough) random scenarios over 38 operation kinds; results, recorded arguments, object lifetimes and panic messages must agree between the two runs.", "DESIGN.md §5 C09"),
+             "60 (quick) / 1500 (thorough) random scenarios over 39 operation kinds plus generated limit interfaces (1..64 arguments, 70 methods); results, recorded arguments, object lifetimes "
+             "(incl. abandoned futures) and panic messages must agree between the two runs. Release, debug and Miri builds.", "DESIGN.md §5 C09"),
     "C10": c("va", "runtime monitoring: all (caller, implementation) version pairs of generated interface families against the reference projection; reply-framing hook monitor",
-             "Each pair runs in its own process; arguments seen by the implementation and values returned to the caller are compared with the model's projection through min(i,j).", "DESIGN.md §5 C10"),
+             "Each pair runs in its own process; arguments seen by the implementation, values returned to the caller, every hop of closure arguments, returned closures and future outputs are compared "
+             "with the model's projection through min(i,j); methods on one side only (also in nested interfaces) and seven incompatible signature changes.", "DESIGN.md §5 C10"),
     "C11": c("va", "runtime monitoring: separately compiled plugins (different compiler, randomised layouts) observed through the real dlopen path; single-fact mutation of layout descriptions",
              "Values observed by the plugin, by-reference decisions versus exported layout facts, and completeness of Schema::layout_compatible under every single-fact change.", "DESIGN.md §5 C11"),
     "C12": c("vh", "runtime monitoring: independent schema-driven reader over real bytes",
@@ -43,9 +45,11 @@ CLAIMS = {
     "C14": c("vh", "runtime monitoring: exhaustive single-byte tampering and truncation of encrypted files",
              "Every byte position x every replacement value for small streams, every truncation, key and password variations; every load must fail cleanly.", "DESIGN.md §5 C14"),
     "C15": c("va", "runtime monitoring: run histories of the ledger over labelled interface revisions in temporary directories",
-             "Unchanged, compatible and breaking revision sequences (hand-written and generated families); verdict per run compared with the label; recorded files monitored.", "DESIGN.md §5 C15"),
+             "Unchanged, compatible and breaking revision sequences (one breaking revision per kind and position incl. closure / future signatures; generated families with version gaps); "
+             "verdict per run compared with the label; recorded files monitored.", "DESIGN.md §5 C15"),
     "C16": c("vc", "runtime monitoring: concurrency stress with hook-injected delays, conservation monitor, deadlock watchdog (gdb), ThreadSanitizer and Miri",
-             "First-use creation races on never-used interface types from 2-64 threads, shared-connection calls, nested creation through closure arguments; results versus sequential model, ticket conservation.", "DESIGN.md §5 C16"),
+             "First-use creation races on never-used interface types from 2-64 threads, shared-connection calls, nested creation through closure arguments, tight-loop cached creation of different "
+             "interfaces, Send-only sharing probe; results versus sequential model, ticket conservation.", "DESIGN.md §5 C16"),
     "C17": c("vh", "runtime monitoring: structural invariant walk + random command histories under catch_unwind",
              "introspect_len versus fetchable children on every node of generated values; 70k random navigation commands with flat-index consistency.", "DESIGN.md §5 C17"),
     "C18": c("vh", "runtime monitoring: downgrade oracle over abi-writable evolution families",
